@@ -9,6 +9,7 @@ import Mathlib.Algebra.CharZero.Defs
 import Mathlib.Data.Int.Cast.Lemmas
 import Mathlib.Algebra.Order.Field.Basic
 import Mathlib.Tactic.Linarith
+import Mathlib.Tactic.NormNum
 open OdlModel.Resize
 
 namespace OdlModel.C16
@@ -21,27 +22,41 @@ theorem numLR_sum (n nNew : Nat) (off : Option Int) :
   · subst h; simp
   · cases off <;> simp
 
-theorem cast_ne_zero_facts (n : Nat) (hn : 2 ≤ n) :
-    (n : F) ≠ 0 ∧ (n : F) - 1 / 2 ≠ 0 ∧ (n : F) - 1 / 2 - 1 / 2 ≠ 0 := by
-  refine ⟨?_, ?_, ?_⟩
-  · exact Nat.cast_ne_zero.2 (by omega)
-  · intro h
-    have : ((2 * n : Nat) : F) = ((1 : Nat) : F) := by push_cast; linear_combination 2 * h
+/-- an axis with at least two grid points, or one grid point that is not on both boundaries -/
+def AxisOK (n : Nat) (bl br : Bool) : Prop := 2 ≤ n ∨ (n = 1 ∧ (bl = false ∨ br = false))
+
+theorem denom_ne_zero (n : Nat) (bl br : Bool) (h : AxisOK n bl br) :
+    (((n : Int) : F)) - (if bl then ((1 : Int) : F) / ((2 : Int) : F) else ((0 : Int) : F))
+      - (if br then ((1 : Int) : F) / ((2 : Int) : F) else ((0 : Int) : F)) ≠ 0 := by
+  have hn1 : 1 ≤ n := by rcases h with h | ⟨h, _⟩ <;> omega
+  have key : ∀ k : Nat, k < 2 * n → ((n : F)) - (k : F) / 2 ≠ 0 := by
+    intro k hk he
+    have : ((2 * n : Nat) : F) = ((k : Nat) : F) := by push_cast; linear_combination 2 * he
     have := Nat.cast_injective this; omega
-  · intro h
-    have : ((n : Nat) : F) = ((1 : Nat) : F) := by push_cast; linear_combination h
-    have := Nat.cast_injective this; omega
+  rcases h with h | ⟨h, hb⟩
+  · cases bl <;> cases br <;> simp only [Bool.false_eq_true, ↓reduceIte, Int.cast_natCast,
+      Int.cast_zero, Int.cast_one, Int.cast_ofNat, sub_zero]
+    · have := key 0 (by omega); simpa using this
+    · have := key 1 (by omega); simpa using this
+    · have := key 1 (by omega); simpa using this
+    · have := key 2 (by omega); intro he; apply this; push_cast; linear_combination he
+  · subst h
+    rcases hb with rfl | rfl <;> cases ‹Bool› <;> norm_num
 
 
 section ordered
 variable {F : Type} [Field F] [LinearOrder F] [IsStrictOrderedRing F]
 
-theorem cell_pos (a : Axis F) (hn : 2 ≤ a.n) (hpos : a.lo < a.hi) : 0 < a.cell := by
+theorem cell_pos (a : Axis F) (hn : AxisOK a.n a.bl a.br) (hpos : a.lo < a.hi) : 0 < a.cell := by
   obtain ⟨lo, hi, n, bl, br⟩ := a
-  have h2 : (2 : F) ≤ (n : F) := by exact_mod_cast hn
   simp only [Axis.cell]
   apply div_pos (sub_pos.2 hpos)
-  cases bl <;> cases br <;> simp <;> linarith
+  rcases hn with h | ⟨h, hb⟩
+  · have h2 : (2 : F) ≤ (n : F) := by exact_mod_cast h
+    cases bl <;> cases br <;> simp <;> linarith
+  · simp only at h hb
+    subst h
+    rcases hb with rfl | rfl <;> cases ‹Bool› <;> norm_num
 
 end ordered
 end OdlModel.C16
